@@ -3,14 +3,20 @@
 worktree, screen it against all quick checks in a scratch copy of the harness, and file it under
 /verif/seeded/<prop>-m<m>/ (patch.diff, demo.rs, README.md, meta.json)."""
 import json, os, re, shutil, subprocess, sys
-prop, m = sys.argv[1], sys.argv[2]
-src = f"/tmp/mut/{prop}/out/m{m}"
-name = f"{prop}-m{m}"
-dst = f"/verif/seeded/{name}"
-os.makedirs(dst, exist_ok=True)
-for f in ["patch.diff", "demo.rs", "README.md"]:
-    if os.path.exists(f"{src}/{f}"):
-        shutil.copy(f"{src}/{f}", f"{dst}/{f}")
+if sys.argv[1] == "--own":
+    # tools/seed.py --own <name>: one of the harness author's own sensitivity mutations (/verif/sensitivity/<name>/patch.diff, no demonstration)
+    name = sys.argv[2]; prop = name[:3]; m = "0"
+    dst = f"/verif/sensitivity/{name}"
+else:
+    prop, m = sys.argv[1], sys.argv[2]
+    src = f"/tmp/mut/{prop}/out/m{m}"
+    name = f"{prop}-m{m}"
+    dst = f"/verif/seeded/{name}"
+    os.makedirs(dst, exist_ok=True)
+    for f in ["patch.diff", "demo.rs", "README.md"]:
+        if os.path.exists(f"{src}/{f}"):
+            shutil.copy(f"{src}/{f}", f"{dst}/{f}")
+has_demo = os.path.exists(f"{dst}/demo.rs")
 wt = f"/tmp/confirm_{name}"
 tgt = f"/tmp/confirm_target_{int(m)%2}_{prop}"
 def sh(cmd, cwd=None, env=None):
@@ -20,11 +26,12 @@ def sh(cmd, cwd=None, env=None):
 sh(f"git -C /repo worktree remove --force {wt}"); sh("git -C /repo worktree prune")
 rc, out = sh(f"git -C /repo worktree add -q --detach {wt} HEAD")
 os.makedirs(f"{wt}/tests", exist_ok=True)
-shutil.copy(f"{dst}/demo.rs", f"{wt}/tests/demo_x.rs")
+if has_demo:
+    shutil.copy(f"{dst}/demo.rs", f"{wt}/tests/demo_x.rs")
 env = {"CARGO_TARGET_DIR": tgt}
 def results(out):
     return re.findall(r"test result: (\w+)\. (\d+) passed; (\d+) failed", out)
-rc1, o1 = sh("cargo test --offline --test demo_x", cwd=wt, env=env)
+rc1, o1 = sh("cargo test --offline --test demo_x", cwd=wt, env=env) if has_demo else (0, "")
 demo_clean = rc1 == 0
 rc, o = sh(f"git apply {dst}/patch.diff", cwd=wt)
 applies = rc == 0
@@ -32,11 +39,13 @@ rc2, o2 = sh("cargo test --offline --lib", cwd=wt, env=env)
 rc3, o3 = sh("cargo test --offline --doc", cwd=wt, env=env)
 lib = results(o2); doc = results(o3)
 tests_ok = rc2 == 0 and rc3 == 0 and lib and lib[0][1] == "96" and doc and doc[0][1] == "2"
-rc4, o4 = sh("cargo test --offline --test demo_x", cwd=wt, env=env)
+rc4, o4 = sh("cargo test --offline --test demo_x", cwd=wt, env=env) if has_demo else (1, "FAILED")
 demo_mut = rc4 != 0 and ("panicked" in o4 or "FAILED" in o4 or "SIGABRT" in o4 or "signal" in o4)
 sh(f"git -C /repo worktree remove --force {wt}")
 shutil.rmtree(tgt, ignore_errors=True)
 confirm = {"patch_applies": applies, "demo_passes_on_unmodified": demo_clean, "library_tests_96_plus_2_pass_with_patch": bool(tests_ok), "demo_fails_with_patch": bool(demo_mut)}
+if not has_demo:
+    confirm = {"patch_applies": applies, "library_tests_96_plus_2_pass_with_patch": bool(tests_ok)}
 ids = [f"C{n:02d}" for n in range(1, 19)]
 rc, out = sh(f"/verif/tools/mutant.sh scratch {name} {dst}/patch.diff " + " ".join(ids))
 checks = {}
@@ -45,7 +54,7 @@ for line in out.splitlines():
     if mm:
         checks[mm.group(1)] = int(mm.group(2))
 fails = re.findall(r"failure: \[([^\]]+)\]", out)
-meta = {"id": name, "breaks_property": prop, "source": "independent sub-agent given only the property text and a scratch worktree",
+meta = {"id": name, "breaks_property": prop, "source": "independent sub-agent given only the property text and a scratch worktree" if has_demo else "harness author's own sensitivity mutation (DESIGN.md §5 lists)",
         "confirmed_in_scratch_worktree": confirm,
         "quick_check_exit_codes": checks, "caught_by": sorted(k for k, v in checks.items() if v == 1),
         "failure_signatures": fails[:6],
